@@ -31,11 +31,17 @@ package propeller
 // For every set of received units (any subset of shard positions may be missing, marked nil) the
 // function returns a message or an error: it never panics. Reed-Solomon and the Merkle tree are
 // dependencies with assumed contracts (on success all shards are present, equally long).
+//@ ghost var recovered [][]byte
+//@ ghost var builtTree merkle.Tree
 //@ extern func github.com/NethermindEth/juno/consensus/propeller/reedsolomon.RecoverData
+//@   logged as RecoverData
+//@   sets recovered = result0
 //@   modifies shards[0..len(shards)]
 //@   ensures result1 == nil ==> len(result0) == len(shards) && len(result0) == numDataShards + parity && numDataShards >= 1 && parity >= 0 && len(result0[0]) < 1<<30
 //@   ensures result1 == nil ==> (forall i int :: 0 <= i && i < len(result0) ==> result0[i] != nil && len(result0[i]) == len(result0[0]))
 //@ extern func github.com/NethermindEth/juno/consensus/propeller/merkle.New
+//@   logged as MerkleNew
+//@   sets builtTree = result1
 //@   ensures len(tree) == len(leaves)
 //@ func ConstructMessageFromUnits
 //@   props C19
@@ -52,3 +58,56 @@ package propeller
 //@   loop 3: invariant idx: -1 <= rangeindex && rangeindex < len(units)
 //@   loop 4: invariant idx: -1 <= rangeindex && rangeindex < len(shards)
 //@   ensures ok: result3 == nil ==> len(result1) == 1
+// The root the units are checked against is computed over ALL shards as recovered (none missing),
+// each hashed in the form the unit validator verifies; the shard and proof handed back for
+// re-broadcast are the local index's.
+//@   assigns recovered, builtTree, calls_RecoverData, calls_MerkleNew, arg_RecoverData_shards, arg_RecoverData_numDataShards, arg_RecoverData_parity, arg_MerkleNew_leaves
+//@   callsite merkle.New@*: over_all_recovered_shards: calls_RecoverData == old(calls_RecoverData) + 1 && len($0) == len(recovered) && (forall i int :: 0 <= i && i < len(recovered) ==> $0[i] == protoLeaf(recovered[i]))
+//@   ensures local_unit: result3 == nil ==> result1[0] == recovered[int(localShardIndex)] && result2 == builtTree[int(localShardIndex)]
+
+
+// ---- one leaf function on both sides (defect F15, fixed) -----------------------------------------
+// The Merkle leaf of a unit is the proto encoding of the shard data it carries. The publisher's
+// tree, the tree rebuilt on reconstruction and the validator's proof check all use that leaf:
+// protoLeaf stands for "the proto encoding of a one-shard ShardData".
+//@ ghost func protoLeaf(shard []byte) []byte
+//@ func (ShardData).MarshalProto
+//@   trusted
+//@   ensures len(sd) == 1 ==> result == protoLeaf(sd[0])
+//@ func merkleLeaves
+//@   props C19
+//@   arith int
+//@   loop 1: invariant idx: -1 <= rangeindex && rangeindex < len(shards) && len(leaves) == len(shards)
+//@   loop 1: invariant sofar: forall j int :: 0 <= j && j <= rangeindex ==> leaves[j] == protoLeaf(shards[j])
+//@   ensures every_leaf: len(result) == len(shards) && (forall j int :: 0 <= j && j < len(shards) ==> result[j] == protoLeaf(shards[j]))
+
+// ---- the publisher's units -----------------------------------------------------------------------
+//@ ghost var encoded [][]byte
+//@ extern func github.com/NethermindEth/juno/consensus/propeller/reedsolomon.EncodeData
+//@   logged as EncodeData
+//@   sets encoded = result0
+//@   ensures result1 == nil ==> len(result0) == numDataShards + parity && len(result0) >= 1
+//@ extern func github.com/libp2p/go-libp2p/core/peer.IDFromPrivateKey
+//@ func SignMessage
+//@   trusted
+//@   logged
+// Every unit carries its own shard with that shard's proof, the index, and the nonce the signature
+// was made over (defect F16, fixed: the nonce was left at zero).
+//@ func CreatePropellerUnits
+//@   props C19
+//@   arith int
+//@   nosafe
+//@   requires numDataShards >= 1 && numDataShards < 1<<20 && parity >= 0 && parity < 1<<20 && len(message) < 1<<40 && committeeID != nil
+//@   modifies *
+//@   assigns encoded, builtTree, calls_EncodeData, calls_MerkleNew, calls_SignMessage, arg_EncodeData_data, arg_EncodeData_numDataShards, arg_EncodeData_parity, arg_MerkleNew_leaves, arg_SignMessage_privKey, arg_SignMessage_root, arg_SignMessage_committeeID, arg_SignMessage_nonce
+//@   callsite merkle.New@*: over_all_encoded_shards: len($0) == len(encoded) && (forall i int :: 0 <= i && i < len(encoded) ==> $0[i] == protoLeaf(encoded[i]))
+//@   callsite SignMessage@*: signs_what_the_units_say: $2 == committeeID && $3 == nonce
+//@   loop 1: invariant idx: -1 <= rangeindex && rangeindex < len(encodedMessage) && len(units) == len(encodedMessage) && encodedMessage == encoded
+//@   loop 1: invariant nonce: forall j int :: 0 <= j && j <= rangeindex ==> units[j].Nonce == nonce
+//@   loop 1: invariant index: forall j int :: 0 <= j && j <= rangeindex ==> int(units[j].ShardIndex) == j
+//@   loop 1: invariant shard: forall j int :: 0 <= j && j <= rangeindex ==> len(units[j].ShardData) == 1
+// the shard itself: established for the unit just written (that later iterations leave the shard
+// arrays of earlier units alone is an aliasing fact the invariant does not carry)
+//@   loop 1: invariant own_shard: rangeindex >= 0 ==> units[rangeindex].ShardData[0] == encoded[rangeindex]
+//@   loop 1: invariant proof: forall j int :: 0 <= j && j <= rangeindex ==> units[j].MerkleProof == builtTree[j]
+//@   ensures units: result1 == nil ==> len(result0) == len(encoded) && (forall j int :: 0 <= j && j < len(result0) ==> result0[j].Nonce == nonce && int(result0[j].ShardIndex) == j && len(result0[j].ShardData) == 1 && result0[j].MerkleProof == builtTree[j])
